@@ -6,6 +6,7 @@
    X11 daemon.Run role dispatch, Launch outcomes off the protocol (DaemonRole.tla)
    X12 osutil.WaitFor / WaitForInterrupt / WaitForStop over delivered signals (WaitFor.tla)
    X13 config.FromCommandLine in child processes (CmdLine.tla on top of ArgParse.tla), ioutil.SeekAndReadAll (SeekRead.tla)
+   X15 the time side of PushTask / SetTimeout (PushTimeout.tla): not before the timeout configured when the call began, per-call timers
    X14 TaskLane.ShortestQueueIndex on lanes at rest, under load and as the lane chooser of a producer (LanePick.tla)"""
 import json
 import vlib
@@ -18,6 +19,8 @@ def run(ctx, which):
     out = ctx.path("cases.ndjson")
     if which == "X14":
         return run_x14(ctx, q, out)
+    if which == "X15":
+        return run_x15(ctx, q, out)
     hb = ctx.build("extras")
     if which == "X01":
         r = ctx.tlc("util", "StrUtilMC", "SPECIFICATION Spec\nCONSTANT MaxLen = %d\nINVARIANT Facts\nCHECK_DEADLOCK FALSE\n" % (4 if q else 5), workers=16, timeout=1800)
@@ -151,5 +154,29 @@ def run_x14(ctx, q, out):
         raise vlib.Infra("only %d at-rest cases recorded" % nrest)
     ctx.cov.update({"traces_validated_against_impl": len(rows), "evaluations": len(rows), "distinct_nontrivial": nrest,
                     "rule": "extras family X14: ShortestQueueIndex results of the real lane (every buffer-length vector at rest, under load, as lane chooser) judged by LanePickCases.tla; LanePick.tla model-checked with the loop's two reads per iteration interleaved with sends and takes",
+                    "bad": len(bad)})
+    ctx.sample(rows[len(rows) // 2])
+
+
+def run_x15(ctx, q, out):
+    cfg = "SPECIFICATION Spec\nCONSTANTS Timeouts = {0, 1, 3}\nMaxNow = %d\nEvalLate = %s\nINVARIANTS NotEarly NilOnlyWithRoom\nCHECK_DEADLOCK FALSE\n"
+    r = ctx.tlc("tasklane", "PushTimeout", cfg % (5 if q else 8, "FALSE"), workers=8, timeout=900)
+    if r.violated:
+        raise vlib.Infra("spec-level counterexample:\n" + r.trace[:2000])
+    mr = ctx.tlc("tasklane", "PushTimeout", cfg % (5, "TRUE"), workers=4, timeout=300, count=False, tag="mutant: timeout read when the timer fires")
+    if mr.violated != "NotEarly":
+        raise vlib.Infra("vacuity: the EvalLate mutant satisfies NotEarly")
+    hb = ctx.build("lanetime")
+    ctx.run([hb, "-reps", "2" if q else "8", "-out", out], timeout=1500)
+    rows = vlib.read_ndjson(out)
+    bad, _, _ = judge(ctx, "tasklane", "PushTimeoutCases", rows, nshards=1, workers=2, timeout=600)
+    for c in bad[:5]:
+        w = "PushTask on a lane (laneSize %d, queueSize %d) that %s, timeout %d ms%s: returned %s after %d us" % (
+            c["n"], c["q"], "had room" if c["kind"] == "room" else "was full during the whole call", c["ms"],
+            " (SetTimeout(%d ms) 20 ms into the call)" % c["newms"] if c["kind"] == "during" else "", c["res"], c["us"])
+        ctx.violation("X15 %s %d" % (c["kind"], c["ms"]), w, c)
+    ctx.cov.update({"traces_validated_against_impl": len(rows), "evaluations": len(rows), "distinct_nontrivial": sum(1 for c in rows if c["kind"] != "room"),
+                    "rule": "extras family X15: durations and results of PushTask on full lanes (timeouts 0..260 ms, SetTimeout during a call in both directions) "
+                            "and on lanes with room, judged by PushTimeoutCases.tla; PushTimeout.tla model-checked with a tick clock, EvalLate mutant rejected",
                     "bad": len(bad)})
     ctx.sample(rows[len(rows) // 2])
